@@ -127,6 +127,10 @@ func genuinePackets(r *rng, snd *cnode) (descr []string, pkts [][]byte, leafType
 func c13Mut(r *rng, id string) {
 	c, enc := randCcfg(r)
 	c.compress = r.chance(1, 3)
+	if r.chance(1, 2) { // half of the campaigns on bare plaintext leaves, where decodability is known
+		c = ccfg{udp: 1400, verifyIn: true, verifyOut: true, proto: 2}
+		enc = "n"
+	}
 	snd, err := newCnode(c)
 	if err != nil {
 		return
@@ -144,6 +148,12 @@ func c13Mut(r *rng, id string) {
 	ml.VerifAliveNode(rcv.m, 2, "n2", []byte{10, 0, 0, 4}, 7946, nil, []uint8{1, 5, 2, 0, 0, 0}, nil, false)
 	descr, pkts, ltype, lbody := genuinePackets(r, snd)
 	k := r.intn(len(pkts))
+	if c.label == "" && enc == "n" && !c.compress {
+		k = []int{2, 3, 4, 0, 1}[r.intn(5)] // suspect, dead, alive, ping, ack: the structured leaves
+		if k >= len(pkts) {
+			k = 0
+		}
+	}
 	base, d := pkts[k], descr[k]
 	rcv.observe()
 	total, bads := 0, []string{}
@@ -179,7 +189,11 @@ func c13Mut(r *rng, id string) {
 	}
 	// three bit patterns per byte
 	for off := 0; off < len(base); off++ {
-		for _, pat := range []byte{0x01, 0x80, 0xff} {
+		pats := []byte{0x01, 0x80, 0xff}
+		if plainLeaf {
+			pats = []byte{0x01, 0x02, 0x04, 0x07, 0x08, 0x0c, 0x80, 0xff}
+		}
+		for _, pat := range pats {
 			mut := append([]byte(nil), base...)
 			mut[off] ^= pat
 			inert := false
